@@ -53,3 +53,15 @@ package symbolizer
 // C12: a mapping that already carries symbols is only re-symbolized when force is set
 //@ func doLocalSymbolize nosafety
 //@   callsite symbolizeOneMapping unless_symbolized: force || !(m.HasFunctions || m.HasFilenames || m.HasLineNumbers)
+
+// ---- C12: symbolizeOneMapping — a location the object file has no answer for is left exactly as it was; an answered
+// location gets one line per returned frame with that frame's line and column numbers; a has-symbols flag of the mapping
+// is raised only by a frame that actually carries that piece of information ----
+//@ func symbolizeOneMapping nosafety funcvalues=pure
+//@   loop 1
+//@     step unanswered: callres("invoke.SourceLine", 1) != nil || len(callres("invoke.SourceLine", 0)) == 0 ==> same_elems(l.Line, aftercall("invoke.SourceLine", l.Line)) && (l.IsFolded <==> aftercall("invoke.SourceLine", l.IsFolded))
+//@     step answered: callres("invoke.SourceLine", 1) == nil && len(callres("invoke.SourceLine", 0)) != 0 ==> len(l.Line) == len(callres("invoke.SourceLine", 0)) && !l.IsFolded
+//@   loop 2
+//@     invariant 0 <= $i && $i <= len(stack) && len(l.Line) == len(stack) && fresh(l.Line) && !l.IsFolded
+//@     invariant numbers: forall k int :: 0 <= k && k < $i ==> l.Line[k].Line == int64(stack[k].Line) && l.Line[k].Column == int64(stack[k].Column)
+//@     step flags: (m.HasFunctions <==> atiter(2, m.HasFunctions) || frame.Func != "") && (m.HasFilenames <==> atiter(2, m.HasFilenames) || frame.File != "") && (m.HasLineNumbers <==> atiter(2, m.HasLineNumbers) || frame.Line != 0)
